@@ -10,6 +10,7 @@ RULE = ('generated trees (nested directories, index.html/index.htm, extension-le
         '%2e%2e, %2E., .%2e, %2f, %5c, %00, %252e, %c0%ae, ..} raw and percent-encoded; route prefixes with and without trailing '
         '*; plus one request per file and directory of every tree (completeness, redirect, index); non-trivial = path has a '
         'dot-segment/encoding or hits an existing entry')
+NEEDS_TOKIO = True
 ASSUMPTIONS = ['no symlinks, no concurrent file changes, UTF-8 file names, case-sensitive file system',
                'the model root is the temporary base directory: resolution above it is not modelled (never reached after F14)']
 
@@ -201,6 +202,13 @@ def run(ctx):
                        what='implementation and model differ (no property failure on this input)')
         if kind != 'adv' or '%' in uri or '..' in uri or b != '404':
             ctx.mark_nontrivial(line)
+    # the tokio runtime has its own copies of serve_dir / serve_as_file_path (humphrey/src/tokio/handlers.rs): same model
+    idx = [i for i, l in enumerate(lines) if l.startswith('static serve_dir ') or l.startswith('static serve_as_file_path ')]
+    if ctx.tier != 'thorough':
+        idx = idx[::2]
+    ctx.tokio_twin([lines[i] for i in idx], [m[i] for i in idx], 'static-mismatch-tokio',
+                   what='tokio static handler differs from the model')
+    shutil.rmtree(V + '/work/c06', ignore_errors=True)
     for k in (0, len(lines) // 2, len(lines) - 1):
         if 0 <= k < len(lines) and meta[k] is not None:
             ctx.sample({'handler': meta[k][0], 'route': meta[k][1], 'uri': meta[k][2], 'impl': im[k][:80]})
